@@ -489,7 +489,8 @@ def _stringify(node: Node) -> str:
                     if not is_format_arg:
                         assert isinstance(arg, StrExpr)
 
-                        output += _stringify(arg)[1:-1]
+                        # literal braces have to be doubled inside of an f-string
+                        output += _stringify(arg)[1:-1].replace("{", "{{").replace("}", "}}")
 
                     else:
                         field = _stringify_operand(arg, 2)
